@@ -1,13 +1,91 @@
 """C14 - no shared mutable state: copies independent, control flow merges variables right."""
 from evalcheck import *
 
-RULE = ("impl->spec: mutation-heavy random programs (let mut / assignment / op-assignment through nested array, tuple and struct accessors with constant and "
+RULE = ("design: CompileScheme.tla (environment threading of the compiler: clone + mux for if and &&, scope per block and per loop iteration) checked by TLC: SchemeRefinesSem for every well-formed environment skeleton of the bound, the superseded schemes (shared loop scope, && without mux) are refuted negative controls; spec->impl: every skeleton rendered to a program returning (a, b) and evaluated in every world; impl->spec: mutation-heavy random programs (let mut / assignment / op-assignment through nested array, tuple and struct accessors with constant and "
         "input-dependent indices, inside nested blocks, branches, arms, loops and called functions with mut parameters, shadowing incl. of constants, loop "
         "bodies that assign to an outer variable and then shadow it) whose main returns every variable in scope; every run judged by Trace_Eval.tla against "
         "GarbleSem.tla's explicit scope stack. Non-trivial = programs whose observed outputs differ between two runs.")
 
 
+def render_skeleton(prog, nconds):
+    """an environment skeleton of CompileScheme.tla as a Garble program that returns (a, b)"""
+    text, stack = [], []
+    for i, x in enumerate(prog, start=1):
+        op, v, c = x["op"], x["x"], x["c"]
+        other = "b" if v == "a" else "a"
+        if op == "let":
+            text.append("let %s = %du8;" % (v, 10 + i))
+        elif op == "letmut":
+            text.append("let mut %s = %du8;" % (v, 10 + i))
+        elif op == "asg":
+            text.append("%s = %du8;" % (v, 10 + i))
+        elif op == "cpy":
+            text.append("%s = %s;" % (v, other))
+        elif op == "blk":
+            text.append("{")
+            stack.append("blk")
+        elif op == "loop":
+            text.append("for i%d in [0u8, 1u8] {" % i)
+            stack.append("loop")
+        elif op == "if":
+            text.append("if c%d {" % c)
+            stack.append("if")
+        elif op == "else":
+            text.append("} else {")
+        elif op == "and":
+            text.append("let t%d = c%d && ({" % (i, c))
+            stack.append("and")
+        elif op == "match":
+            text.append("match (c1, c2) { (true, _) => {")
+            stack.append("match1")
+        elif op == "arm":
+            k = stack.pop()
+            text.append("}, (false, true) => {" if k == "match1" else "}, _ => {")
+            stack.append("match2" if k == "match1" else "match3")
+        else:
+            k = stack.pop()
+            text.append("true });" if k == "and" else ("} }" if k.startswith("match") else "}"))
+    params = ", ".join("c%d: bool" % i for i in range(1, nconds + 1))
+    return "pub fn main(%s, v: u8) -> (u8, u8) { let mut a = 1u8; let mut b = 2u8; %s (a, b) }" % (params, " ".join(text))
+
+
+def skeletons(run, harness):
+    """design check of the compile scheme (fixed scheme refines the sequential semantics, superseded schemes refuted) and
+    replay of every environment skeleton into the real compiler"""
+    tier = run.tier
+    r = tlc("CompileScheme", "CompileScheme_fixed.cfg" if tier == "quick" else "CompileScheme_fixed_thorough.cfg", workers=6, timeout=6000, xmx="16g")
+    run.add_tlc("CompileScheme/fixed", r)
+    for sc in ("loop-shared", "and-no-mux"):
+        r2 = tlc("CompileScheme", "CompileScheme_%s.cfg" % sc, workers=2, timeout=900, must_succeed=False)
+        run.add_tlc("CompileScheme/negative-control-" + sc, r2)
+        if r2.ok:
+            raise ToolError("negative control %s of CompileScheme.tla unexpectedly passes (vacuity)" % sc)
+    spath = os.path.join(run.work, "skeletons.ndjson")
+    r, cnt = tlc_cases("CompileScheme", "CompileScheme_gen_%s.cfg" % tier, spath, workers=4, timeout=3000, max_cases=60000)
+    run.add_tlc("CompileScheme/emit", r)
+    # longer skeletons: random walks through the same machine (the invariant is checked on every walk as well)
+    spath2 = os.path.join(run.work, "skeletons_sim.ndjson")
+    r, cnt2 = tlc_cases("CompileScheme", "CompileScheme_sim.cfg", spath2, workers=4, timeout=3000, simulate="num=%d" % (2500 if tier == "quick" else 40000), depth=60, seed=int(run.seed) + 1,
+                        max_cases=3000 if tier == "quick" else 40000)
+    run.add_tlc("CompileScheme/simulate", r)
+    cases = []
+    for i, c in enumerate(read_ndjson(spath) + read_ndjson(spath2)):
+        n = c["nconds"]
+        worlds = [[(w >> j) & 1 for j in range(n)] + [0] for w in range(2 ** n)]
+        cases.append({"id": "envskel-%d" % i, "src": render_skeleton(c["prog"], n), "inputs": worlds})
+    run.cov["environment_skeletons"] = len(cases)
+    cpath = os.path.join(run.work, "skeleton_cases.ndjson")
+    write_ndjson(cpath, cases)
+    events = record(run, harness, [["eval-file", cpath, "@OUT"]])
+    for e in events:
+        if e["ev"] != "Eval":
+            raise ToolError("environment skeleton does not compile: %s" % json.dumps(e)[:500])
+    judge(run, events)
+
+
 def run(run, harness, replay=None):
+    if not replay:
+        skeletons(run, harness)
     quick = [["eval-gen", "@OUT", "1200", "6", "mutation"], ["eval-gen", "@OUT", "400", "6", "mutation", "effects"]]
     thorough = [["eval-gen", "@OUT", "15000", "10", "mutation"], ["eval-gen", "@OUT", "5000", "10", "mutation", "effects"]]
     run_eval_check(run, harness, replay, quick, thorough, RULE)
